@@ -34,7 +34,7 @@ THEOREMS = [
     "C13_use_skips_structure",
     "C13_wrapper_iff_names_differ",
     "C13_last_segment_spec",
-    "C13_unvalidated_path_refuted",
+    "C13_non_type_path_generates",
     "C13_matches_is_cargo",
     "C13_matches_is_cargo_gap",
     "C13_version_policy_is_cargo",
@@ -566,7 +566,7 @@ def readme_wellformed(ext):
 def oracle(case, req_matches):
     """Expected substitution from the PROPERTY TEXT.  Returns ("use", type) |
     ("generate",) | None (text does not determine it: a declared parameter
-    cannot be converted)."""
+    cannot be converted, or the path needs a Rust parser to classify)."""
     ext = case["ext"]
     if not readme_wellformed(ext):
         return ("generate",)
@@ -576,7 +576,10 @@ def oracle(case, req_matches):
     ident = ext["crate"].replace("-", "_")
     if not ext["path"].startswith(ident + "::"):
         return ("generate",)                      # path not starting with the crate's identifier
-    if not is_type_path(ext["path"]):
+    tpv = is_type_path(ext["path"])
+    if tpv is None:
+        return None                               # only a Rust parser can tell
+    if not tpv:
         return ("generate",)                      # not a path at all (README: pattern of `path`)
     cfg = [c for c in case["crates"] if c["name"] == ext["crate"]]
     cfg = cfg[-1] if cfg else None
@@ -689,9 +692,16 @@ RUST_KEYWORDS = set("as break const continue else enum extern false fn for if im
 
 
 def is_type_path(p):
-    """README pattern for `path`, read as a path of Rust identifiers."""
-    return bool(README_PATH.match(p)) and all(
-        RUST_IDENT.match(x) and x not in RUST_KEYWORDS and x != "_" for x in p.split("::"))
+    """Is the extension's `path` a Rust type path?  True / False where that is
+    plain from the README pattern and Rust's lexical rules, None where only a
+    Rust parser can tell (generic arguments etc.): the oracle then abstains."""
+    raw = (p[2:] if p.startswith("::") else p).split("::")      # a leading `::` is a global path
+    segs = [x.strip(" ") for x in raw]
+    if all(RUST_IDENT.match(x) and x not in RUST_KEYWORDS and x != "_" for x in segs):
+        return True if segs == raw else None                    # blanks between tokens: parser's business
+    if "<" in p or "(" in p or "[" in p or "&" in p:
+        return None
+    return False
 
 
 def expected_from(kind_def, ty_def, kind_inl, ty_inl, case):
@@ -740,7 +750,8 @@ def coq_pipe_expr(case, reqres):
                                    vlib.coq_list(ps, lambda p: vlib.coq_opt(p, vlib.coq_str)))
         rq = reqres["req"]
         x = "(ExtOk %s %s)" % (e, "None" if rq is None else "(Some %s)" % coq_req(rq))
-    out = "run_decide %s %s (Some %s) %s" % (vlib.coq_list(cs), pol, vlib.coq_str(case["defname"]), x)
+    tp = "true" if reqres["type_path"] or MUT == "model-no-path-check" else "false"
+    out = "run_decide %s %s %s (Some %s) %s" % (tp, vlib.coq_list(cs), pol, vlib.coq_str(case["defname"]), x)
     if MUT == "model-never-is-any":     # emulates a model that drifted from the code
         out = out.replace("CVNever", "CVAny")
     return out
@@ -763,9 +774,15 @@ def run_pipeline(ctx):
         rq_cases.append({"op": "req", "req": rs, "versions": vs})
     rq_res = vlib.run_bin("c13", rq_cases)
     ver_res = vlib.run_bin("c13", [{"op": "req", "req": "*", "versions": q["versions"]} for q in rq_cases])
+    # the real syn parser's verdict on every path (input of the model, like the requirement ASTs)
+    paths = [c["ext"]["path"] if readme_wellformed(c["ext"]) else "" for c in cases]
+    tp_res = vlib.run_bin("c13", [{"op": "paths", "paths": paths}])[0]["type_path"]
+    cls_bad = [(p, t, is_type_path(p)) for p, t in zip(paths, tp_res) if is_type_path(p) is not None and is_type_path(p) != t]
+    ctx.oblige("tie B0: python path classifier (README pattern + Rust lexical rules) = syn::parse_str::<TypePath> "
+               "where it is definite (%d distinct paths)" % len(set(paths)), not cls_bad, json.dumps(cls_bad[:5]))
     exprs, infos = [], []
-    for c, q, qc, q2 in zip(cases, rq_res, rq_cases, ver_res):
-        info = {"req": q["comparators"] if q["r"] == "ok" else None, "cfgver": {}, "matches": {}}
+    for c, q, qc, q2, tpv in zip(cases, rq_res, rq_cases, ver_res, tp_res):
+        info = {"req": q["comparators"] if q["r"] == "ok" else None, "cfgver": {}, "matches": {}, "type_path": tpv}
         for s, v in zip(qc["versions"], q2["versions"]):
             info["cfgver"][s] = v
         if q["r"] == "ok":
@@ -774,7 +791,7 @@ def run_pipeline(ctx):
         infos.append(info)
         exprs.append(coq_pipe_expr(c, info))
     model = vlib.coq_eval_strings("c13p", HDR, exprs, shard=max(20, len(exprs) // (2 * vlib.NCPU) + 1))
-    mism, viol, unspecified, n_render_panic = [], [], 0, 0
+    mism, viol, unspecified, n_render_panic, regress = [], [], 0, 0, []
     dist = {}
     if MUT == "real-deny-allows":       # emulates `UnknownPolicy::Deny => path`
         key = lambda c, pol: json.dumps([c["ext"], c["defname"], c["crates"], pol, c["params"]], sort_keys=True)
@@ -791,6 +808,9 @@ def run_pipeline(ctx):
         if MUT == "real-lookup-underscore" and isinstance(c["ext"], dict) and c["ext"].get("crate") == "my-crate" \
                 and any(x["name"] == "my_crate" for x in c["crates"]) and obs.get("t") == "Thing":
             obs = dict(obs, t="::my_crate::m::Thing")     # emulates a lookup by crate_ident
+        if MUT == "real-no-path-check" and not info["type_path"] and readme_wellformed(c["ext"]) \
+                and c["ext"]["path"].startswith(c["ext"]["crate"].replace("-", "_") + "::"):
+            obs = {"fail": "emulated: type path wasn't valid (to_stream panic)"}   # 31fad76 reverted
         irv = ir_view(c, r)
         bad = {"ir." + k: (irv.get(k), exp[k]) for k in ("t", "def", "i", "inline_item") if irv.get(k) != exp[k]}
         render_panic = r.get("render") == "render-panic" and r.get("all_ok")
@@ -808,6 +828,10 @@ def run_pipeline(ctx):
         cfgv = [x["version"] for x in c["crates"] if isinstance(c["ext"], dict) and x["name"] == c["ext"].get("crate")]
         rm = info["matches"].get(cfgv[-1]) if cfgv and cfgv[-1] not in ("*", "!") else None
         o = oracle(c, rm)
+        if c["stream"] == "corpus" and not info["type_path"]:
+            # regression C13-F1 (fixed 31fad76): must generate, must not panic
+            if "fail" in obs or obs.get("def") != "structural" or obs.get("i") != "UserI":
+                regress.append({"case": c, "observed": obs})
         if o is None:
             unspecified += 1
         elif "fail" in obs:
@@ -833,8 +857,13 @@ def run_pipeline(ctx):
     ctx.evaluations += len(cases)
     ctx.oblige("tie B: Coq decide/convert_ref_def = real pipeline (field types, items, Type::ident) on %d cases"
                % len(cases), not mism, json.dumps(mism[:3]))
+    ctx.oblige("regression C13-F1 (fixed 31fad76): corpus paths that are not type paths are generated from the "
+               "schema and render", not regress, json.dumps(regress[:3]))
     ctx.coverage["pipeline"] = {
-        "cases": len(cases), "decision_by_stream": dist, "render_panics (compared on the type space only)": n_render_panic, "property_text_undetermined (unconvertible parameter)": unspecified,
+        "cases": len(cases), "decision_by_stream": dist,
+        "paths_rejected_by_syn": sorted(set(p for p, t in zip(paths, tp_res) if not t and p))[:40],
+        "paths_accepted_by_syn_outside_README_pattern (oracle abstains)": sorted(
+            set(p for p, t in zip(paths, tp_res) if t and is_type_path(p) is None)), "render_panics (compared on the type space only)": n_render_panic, "property_text_undetermined (unconvertible parameter, or path needing a Rust parser)": unspecified,
         "rule": "product {util, my-crate} x policy x (definition name, last segment) x 7 parameter lists x "
                 "{absent,*,!,match,mismatch} x rename {none, plain, hyphenated}; 49 malformed/edge extension values x 8 "
                 "crate tables x policy; operator-boundary (requirement, configured version) pairs",
@@ -915,7 +944,8 @@ def run(ctx):
         "NOT modelled, taken from the implementation as inputs: serde's parse of the extension value (approximated in "
         "the check by the README's schema for it), semver::VersionReq::parse / Version::parse (ASTs printed field by "
         "field by harness/src/bin/c13.rs; cross-checked against a python parser of the Cargo grammar, tie A1), "
-        "conversion of parameter schemas (outcome Some/None)",
+        "conversion of parameter schemas (outcome Some/None), syn::parse_str::<syn::TypePath> on the extension path "
+        "(section variable path_is_type_path without hypotheses; verdicts from the real syn via `c13 paths`)",
         "pre-release tags are split into identifiers by the check (digits-only => numeric)",
         "specification sat_cargo = the Cargo book's equivalences + `semver::Op` documentation, transcribed by hand "
         "(twice: Coq and python, compared on every pair)",
@@ -993,15 +1023,5 @@ def classify_known(ctx, v):
     return None
 
 
-def _unvalidated_path(v):
-    c = v.get("case", {})
-    ext = c.get("ext")
-    if v.get("kind") not in ("pipeline-failure", "decision") or not readme_wellformed(ext):
-        return False
-    ident = ext["crate"].replace("-", "_")
-    return (ext["path"].startswith(ident + "::") and not is_type_path(ext["path"])
-            and v.get("expected", "").startswith("generated")
-            and doc_parse_req(ext["version"]) is not None)
-
-
-KNOWN_CLASSES = {"unvalidated-extension-path": _unvalidated_path}
+# no open finding classes (C13-F1 is fixed; a fixed entry suppresses nothing)
+KNOWN_CLASSES = {}
